@@ -188,6 +188,43 @@ def d4_compose(c1: bool, a1: bool, c2: bool, a2: bool, swap: bool) -> bool:
     return fin(same_up_to_final_newline(text, fp.content.decode()))
 
 
+def d3_writers(kind: int, variant: int, two: bool) -> bool:
+    """The four manifest writers (real run): the diff in the ChangeSet, applied to the manifest as it was, gives the
+    manifest as written.
+    pre: 0 <= kind < 4 and 0 <= variant < 2
+    post: _
+    """
+    from harness.c04 import _run_writer
+
+    from vlib.core import known_active
+
+    fs, obs, exc, text, path = _run_writer(kind, variant, False, two, False)
+    if exc is not None or obs is None:
+        return False
+    diff = obs[1]
+    if kind == 2 and known_active("C03/pyproject-diff-phantom-trailing-line") and diff.endswith("\n "):
+        # known finding: PyprojectWriter diffs text.split("\n") pieces, so the empty string after the final
+        # newline shows up as one extra, empty context line at the end of the last hunk
+        diff = _without_phantom_line(diff)
+    return fin(len(fs.writes) == 1 and diff_matches(text, fs.files[path], diff))
+
+
+def _without_phantom_line(diff: str) -> str:
+    """Drop the trailing ' ' context line and shrink the last hunk header's two line counts by one."""
+    lines = diff[:-2].split("\n")
+    for i in range(len(lines) - 1, -1, -1):
+        if lines[i].startswith("@@"):
+            parts = lines[i].split(" ")
+
+            def dec(tok):
+                a, b = tok[1:].split(",") if "," in tok else (tok[1:], "1")
+                return "%s%s,%d" % (tok[0], a, int(b) - 1)
+
+            lines[i] = " ".join([parts[0], dec(parts[1]), dec(parts[2])] + parts[3:])
+            break
+    return "\n".join(lines) + "\n"
+
+
 def planted_wrong_tree(dry_run: bool, c1: bool, a1: bool) -> bool:
     """Self-test: a pipeline that diffs against one tree but writes another must be refuted.
     post: _
@@ -245,6 +282,8 @@ def warmup():
     d4_compose(True, True, True, True, False)
     d4_compose(True, True, True, True, True)
     d3_xml(False, True, 1, 2, False)
+    for _k in range(4):
+        d3_writers(_k, 0, True)
 
 
 SPEC = {
@@ -264,6 +303,7 @@ SPEC = {
         "codemodder.codemods.libcst_transformer.LibcstTransformerPipeline.apply / update_code",
         "codemodder.codemods.regex_transformer.RegexTransformerPipeline.apply/_apply, SastRegexTransformerPipeline._apply",
         "codemodder.codemods.xml_transformer.XMLTransformerPipeline.apply, ElementAttributeXMLTransformer.startElement, XMLTransformer.*",
+        "RequirementsTxtWriter / SetupCfgWriter / PyprojectWriter / SetupPyWriter .add_to_file (diff vs written manifest)",
     ],
     "bounds": {
         "quick": "before/after texts <= 2 chars over {a, LF, CR, FF}; <= 3 diff lines of <= 3 chars; pipeline skeletons: all combinations of outcome flags (content kind 4, dry-run, raises/changes/alters of 2 chained transformers), concrete 3-line file",
@@ -276,7 +316,7 @@ SPEC = {
         "UTF-8 only, no BOM",
     ],
     "stubs": ["file (FakePath: records writes/unlink/rename)", "transformers (symbolic raises/changes/alters)", "logger", "expat parser (SAX event driver for a concrete document)", "TemporaryFile (pure-Python text sink)"],
-    "outside": ["pyproject.toml / setup.py writers (tomlkit / libcst re-serialisation)", "encodings other than UTF-8", "texts longer than the bound"],
+    "outside": ["manifest layouts other than the 2 concrete ones per kind", "encodings other than UTF-8", "texts longer than the bound"],
     "drivers": [validate_oracle],
     "xh": [
         Xh("d1_difflines", 120, 400),
@@ -286,6 +326,7 @@ SPEC = {
         Xh("d3_regex", 120, 300),
         Xh("d3_xml", 120, 300),
         Xh("d4_compose", 120, 300),
+        Xh("d3_writers", 150, 300),
         Xh("planted_wrong_tree", 60, 120, twin=False, expect="refuted"),
     ],
 }
